@@ -76,11 +76,27 @@ class RegistryFamily(common.Family):
                             'without a register')
           last[a] = cur
           changes[a] = changes.get(a, 0) + 1
+        # a declaration of death that has returned, with every registration
+        # finished before it began and none under way: the worker must not be
+        # recorded with a heartbeat (whatever the registry held before)
+        u = unreg_start.get(a)
+        if u is not None and isinstance(cur, float) and \
+            not pending_register.get(a) and last_reg_end.get(a, -1) < u:
+          state['msg'] = (f'{a} was declared dead (unregister returned) and is '
+                          f'recorded alive ({cur}) without any register since')
       return state['msg']
 
     inflight = {'a': [], 'b': []}   # calls issued to the worker, not yet answered
     pending_register = {}   # addr -> number of register-type ops in flight
     changes = {}            # addr -> number of value changes seen so far
+    unreg_start = {}        # addr -> logical start time of the latest returned unregister
+    last_reg_end = {}       # addr -> logical end time of the latest finished register
+    tick = [0]
+
+    def now_tick():
+      tick[0] += 1
+      return tick[0]
+
     sim.invariants.append(invariant)
 
     def run(tid, ops):
@@ -90,6 +106,7 @@ class RegistryFamily(common.Family):
         if k == 'register':
           pending_register[a] = pending_register.get(a, 0) + 1
           reg.register(a, now)
+          last_reg_end[a] = now_tick()
           pending_register[a] -= 1
         elif k == 'refresh':
           reg.refresh(a, now)
@@ -98,13 +115,18 @@ class RegistryFamily(common.Family):
         elif k == 'refresh_future':
           reg.refresh(a, now + 5.0)
         elif k == 'unregister':
+          t_ = now_tick()
           reg.unregister(a)
+          unreg_start[a] = max(unreg_start.get(a, 0), t_)
         elif k == 'heartbeat_rpc':
           pending_register[a] = pending_register.get(a, 0) + 1
           srv._heartbeat(a, True)  # pylint: disable=protected-access
+          last_reg_end[a] = now_tick()
           pending_register[a] -= 1
         elif k == 'heartbeat_dead_rpc':
+          t_ = now_tick()
           srv._heartbeat(a, False)  # pylint: disable=protected-access
+          unreg_start[a] = max(unreg_start.get(a, 0), t_)
         elif k == 'is_alive':
           invariant()
           t0 = time.time()
